@@ -8,4 +8,5 @@ pub use crate::units::bgp_tcp_in::router_handler::verif_session_end::*;
 /// `router_handler::verif_connection`).
 pub mod connection {
     pub use crate::units::bgp_tcp_in::router_handler::verif_connection::*;
+    pub use crate::units::bgp_tcp_in::router_handler::verif_connection_filtered::start_filtered;
 }
